@@ -3,6 +3,11 @@ import json, os
 V = os.path.dirname(os.path.dirname(os.path.abspath(__file__)))
 ALL = ['C%02d' % i for i in range(1, 21)]
 CLAIMED = {
+ 'C05': dict(
+   text='Machine-checked proof (Coq): packet layouts are modelled as small programs (fields, control fields that select what follows, counted repetitions, a final trailing array); Packet.write_fields / Packet.read over ANY declared definition are proved to be the straight-line case. By induction over programs and over the type AST: for every layout and every assignment of wire-representable values, writing succeeds and reading the bytes followed by any further bytes returns exactly those values (angle / fixed point to their quantum) and consumes exactly the payload - this covers user-defined field lists (all definitions, all nestings of arrays) and the six classes with hand-written read / write_fields (MapPacket, PlayerListItemPacket with its five actions and optional fields, SpawnObjectPacket, CombatEventPacket, FacePlayerPacket, PluginResponsePacket), for every value of the version flags they consult. Finite part, evaluated by the kernel over the tables reified from the source on every run: every class registered in any of the 8 state/direction tables at any of the 250 supported versions has a well-formed definition (well-formed types are proved inhabited, so nothing is vacuous) or is one of the six modelled classes; selecting the decoder through the id table returns the writing class whenever ids are distinct (C06, same nine open findings). Tie to the code on every run: at all 250 supported versions x every registered class, real write_fields bytes = extracted model bytes, real read = model decode, exact consumption, re-encoding of the decoded packet, frame = length + registered id + fields, decoder-table lookup, repr() on every packet; the version flags of the hand-written classes are found by probing the real encoder (so a consistent move of a threshold is not an alarm, an inconsistent one is); plus randomly generated definitions turned into real Packet subclasses.',
+   note='Trusted: Coq kernel (vm_compute for the finite part); reifier; extraction + driver; harness generators and the object<->value converters of the six hand-written classes. No axioms. PARTIAL: "its textual representation can always be produced" is only exercised (repr() on every generated and decoded packet), not proved; NBT fields are an abstract codec (bytes produced by pynbt, splitter validated); SoundEffectPacket.Pitch is generated from wire values. 9 id collisions on supported snapshots are open known findings shared with C06.',
+   technique='Coq proof (induction over layout programs and the type AST) + reified definitions checked by kernel evaluation + extracted-model differential correspondence at every supported version',
+   design='3/C05'),
  'C02': dict(
    text='Machine-checked proof (Coq) by induction on the type term, for every wire type of types/basic.py and every nesting of PrefixedArray: for every in-domain value the model encoder returns bytes (never an error, never out of fuel), decoding those bytes followed by ANY further bytes returns the value (exactly; for Angle the nearest 1/256 turn, proved within half a step modulo whole turns; for FixedPoint the truncation, proved within 2^-n) and exactly the remaining bytes; every strict prefix of an encoding of a self-delimiting type decodes to an error. Integers are proved to be the k big-endian base-256 digits of v mod 256^k with out-of-range values refused; Float/Double are proved, on Flocq binary32/binary64, to be the big-endian IEEE-754 bit pattern and to read back as the same datum; strings are VarInt(byte length) + UTF-8 with an executable RFC 3629 encoder/decoder proved inverse. The models mirror basic.py (repaired code: FixedPoint.send passes the socket, Angle wraps 256 to 0, String.read raises on truncation) and are tied to the source on every run by differential execution of the extracted model against the real Type.send/read: exhaustive 8/16-bit integers, booleans, all 256 angle bytes, boundary+random 32/64-bit integers, float bit patterns (zeros, subnormals, infinities, NaN), strings of every UTF-8 width around the 1/2/3-byte prefix boundaries, byte arrays, UUIDs, fixed point on six base/precision pairs, nested arrays, every strict prefix, a malformed stream, plus an arithmetic oracle independent of both.',
    note='Trusted: Coq kernel; extraction + driver; harness generators and the float<->bit-pattern bridge (float.hex/frexp, independent of struct); CPython struct/str.encode/uuid are library code mirrored by Gallina re-implementations and validated, not verified. Axioms: none except the two Float/Double theorems, which rest on Flocq/Reals: ClassicalDedekindReals.sig_not_dec, sig_forall_dec, FunctionalExtensionality.functional_extensionality_dep, Classical_Prop.classic. Angle.send/FixedPoint use binary64 arithmetic in impl and exact rationals in the model: inputs within 1e-9 of a rounding tie are excluded from the correspondence. NBT is outside the property (abstract splitter).',
